@@ -268,25 +268,93 @@ Qed.
 (* ------------------------------------------------------------------ *)
 (** * The runners of the canonical schedule *)
 
-Lemma drive_c_spec buf : forall fuel st c,
-  reachable buf (i_s st) -> others_idle (i_s st) c -> (mu (i_s st) c <= fuel)%nat ->
-  fst (drive_c fuel st c) = irun st (snd (drive_c fuel st c)) /\
-  Forall (fun l => l = LRun c) (snd (drive_c fuel st c)) /\
-  all_idle (i_s (fst (drive_c fuel st c))).
+(** the measure of a goroutine that may have been cancelled: the deferred
+    UnsubscribeAll is still to come *)
+Definition mu2 (s : rstate) (c : conn) : nat := (mu s c + if mem_conn c (r_cancel s) then 2 else 0)%nat.
+
+Lemma run_keeps_cancel s c : c_pc (r_cs s c) <> [] -> r_cancel (step s (LRun c)) = r_cancel s.
 Proof.
-  induction fuel as [|f IH]; intros st c R O Hmu.
-  - cbn. repeat split; [constructor|]. intro y. destruct (Nat.eq_dec y c) as [->|N]; [apply mu_zero; lia | now apply O].
+  intro Hne. destruct (step_trans s (LRun c)) as [E|T]; [now rewrite E|].
+  destruct (trans_cancel _ _ _ T) as [E|[(c1 & El & _)|(c1 & El & Hp & _)]]; [assumption | discriminate|].
+  inversion El; subst. contradiction.
+Qed.
+
+Lemma skip_step s c i rest :
+  c_pc (r_cs s c) = i :: rest -> In c (r_cancel s) -> is_reply_instrb i = true ->
+  step s (LSkip c) = with_cs s (upd (r_cs s) c (set_pc (r_cs s c) rest)).
+Proof.
+  intros Hpc Hc Hi. unfold step. cbn [enabled step_enabled]. rewrite Hpc. apply mem_conn_In in Hc. now rewrite Hc, Hi.
+Qed.
+
+Lemma defer_step s c :
+  c_pc (r_cs s c) = [] -> In c (r_cancel s) ->
+  step s (LRun c) =
+  mkR (r_buf s) (r_reg s) (r_pubs s) (remove_conn c (r_cancel s))
+      (upd (r_cs s) c (mkC [IUnsubAll] (c_q (r_cs s c)) (c_hand (r_cs s c)) (c_out (r_cs s c)) (c_rd (r_cs s c))
+                           (c_ctr (r_cs s c)) true (c_ops (r_cs s c) ++ [ODisc]) (c_drops (r_cs s c)))).
+Proof.
+  intros Hpc Hc. unfold step. cbn [enabled]. rewrite Hpc. cbn [step_enabled]. unfold run_instr. rewrite Hpc.
+  apply mem_conn_In in Hc. now rewrite Hc.
+Qed.
+
+Definition drive_label (c : conn) (l : label) : Prop := l = LRun c \/ l = LSkip c.
+
+Lemma drive_c_spec buf giveup : forall fuel st c,
+  reachable buf (i_s st) -> others_idle (i_s st) c -> (forall y, In y (r_cancel (i_s st)) -> y = c) ->
+  (mu2 (i_s st) c <= fuel)%nat ->
+  fst (drive_c fuel st c giveup) = irun st (snd (drive_c fuel st c giveup)) /\
+  Forall (drive_label c) (snd (drive_c fuel st c giveup)) /\
+  all_idle (i_s (fst (drive_c fuel st c giveup))) /\
+  r_cancel (i_s (fst (drive_c fuel st c giveup))) = [].
+Proof.
+  assert (NoCancel : forall s c, (forall y, In y (r_cancel s) -> y = c) -> ~ In c (r_cancel s) -> r_cancel s = []).
+  { intros s c Hall Hn. destruct (r_cancel s) as [|y r] eqn:E; [reflexivity|]. exfalso. apply Hn.
+    rewrite <- (Hall y (or_introl eq_refl)). now left. }
+  induction fuel as [|f IH]; intros st c R O Hcan Hmu.
+  - cbn. unfold mu2 in Hmu.
+    assert (Hc : mem_conn c (r_cancel (i_s st)) = false) by (destruct (mem_conn c (r_cancel (i_s st))); [lia | reflexivity]).
+    rewrite Hc in Hmu. split; [reflexivity|]. split; [constructor|]. split.
+    + intro y. destruct (Nat.eq_dec y c) as [->|N]; [apply mu_zero; lia | now apply O].
+    + apply (NoCancel _ c Hcan). now apply mem_conn_false.
   - cbn [drive_c]. destruct (c_pc (r_cs (i_s st) c)) as [|i rest] eqn:Hpc.
-    + cbn. repeat split; [constructor|]. intro y. destruct (Nat.eq_dec y c) as [->|N]; [assumption | now apply O].
+    + destruct (mem_conn c (r_cancel (i_s st))) eqn:Hc.
+      * (* the loop notices the cancellation *)
+        apply mem_conn_In in Hc.
+        assert (Es : i_s (istep st (LRun c)) = _) by (rewrite istep_s; apply (defer_step _ _ Hpc Hc)).
+        assert (R1 : reachable buf (i_s (istep st (LRun c)))) by (rewrite istep_s; now constructor).
+        assert (O1 : others_idle (i_s (istep st (LRun c))) c).
+        { intros y N. rewrite Es. cbn [r_cs]. rewrite upd_other by auto. now apply O. }
+        assert (C1 : forall y, In y (r_cancel (i_s (istep st (LRun c)))) -> y = c).
+        { intros y Hy. rewrite Es in Hy. cbn in Hy. apply remove_conn_In in Hy as [_ Hy]. now apply Hcan. }
+        assert (M1 : (mu2 (i_s (istep st (LRun c))) c <= f)%nat).
+        { unfold mu2 in *. rewrite Es. unfold mu. cbn [r_cs r_reg r_cancel]. rewrite upd_same, mem_conn_remove_same. cbn.
+          apply mem_conn_In in Hc. rewrite Hc in Hmu. lia. }
+        destruct (IH (istep st (LRun c)) c R1 O1 C1 M1) as (E1 & E2 & E3 & E4).
+        destruct (drive_c f (istep st (LRun c)) c giveup) as [st' tr]. cbn [fst snd] in *.
+        split; [rewrite irun_cons; exact E1|]. split; [constructor; [now left | exact E2] | auto].
+      * cbn. split; [reflexivity|]. split; [constructor|]. split.
+        -- intro y. destruct (Nat.eq_dec y c) as [->|N]; [assumption | now apply O].
+        -- apply (NoCancel _ c Hcan). now apply mem_conn_false.
     + assert (Hne : c_pc (r_cs (i_s st) c) <> []) by (rewrite Hpc; discriminate).
-      pose proof (solo_step_dec buf _ c R O Hne) as Hdec.
-      assert (R1 : reachable buf (i_s (istep st (LRun c)))) by (rewrite istep_s; now constructor).
-      assert (O1 : others_idle (i_s (istep st (LRun c))) c).
-      { intros y N. rewrite istep_s, step_pc_other; [now apply O | cbn; now apply Nat.eqb_neq]. }
-      assert (M1 : (mu (i_s (istep st (LRun c))) c <= f)%nat) by (rewrite istep_s; lia).
-      destruct (IH (istep st (LRun c)) c R1 O1 M1) as (E1 & E2 & E3).
-      destruct (drive_c f (istep st (LRun c)) c) as [st' tr]. cbn [fst snd] in *.
-      split; [rewrite irun_cons; exact E1|]. split; [constructor; [reflexivity | exact E2] | exact E3].
+      set (l := if giveup && mem_conn c (r_cancel (i_s st)) && is_reply_instrb i then LSkip c else LRun c).
+      assert (Step : reachable buf (i_s (istep st l)) /\ others_idle (i_s (istep st l)) c /\
+                     (forall y, In y (r_cancel (i_s (istep st l))) -> y = c) /\ (mu2 (i_s (istep st l)) c <= f)%nat /\ drive_label c l).
+      { unfold l. destruct (giveup && mem_conn c (r_cancel (i_s st)) && is_reply_instrb i) eqn:Eg.
+        - (* the reply is given up *)
+          apply andb_true_iff in Eg as [Eg Ei]. apply andb_true_iff in Eg as [_ Ec]. apply mem_conn_In in Ec.
+          rewrite istep_s, (skip_step _ _ _ _ Hpc Ec Ei). split; [rewrite <- (skip_step _ _ _ _ Hpc Ec Ei); now constructor|].
+          split; [intros y N; cbn [r_cs with_cs]; rewrite upd_other by auto; now apply O|].
+          split; [exact Hcan|]. split; [|now right].
+          unfold mu2, mu in *. cbn [r_cs r_reg r_cancel with_cs]. rewrite upd_same. cbn [c_pc set_pc].
+          rewrite Hpc in Hmu. cbn [wpc fold_right] in Hmu. pose proof (wi_pos (r_reg (i_s st)) i). fold (wpc (r_reg (i_s st)) rest) in Hmu. lia.
+        - rewrite istep_s. split; [now constructor|].
+          split; [intros y N; rewrite step_pc_other; [now apply O | cbn; now apply Nat.eqb_neq]|].
+          split; [rewrite (run_keeps_cancel _ _ Hne); exact Hcan|]. split; [|now left].
+          pose proof (solo_step_dec buf _ c R O Hne) as Hdec. unfold mu2 in *. rewrite (run_keeps_cancel _ _ Hne). lia. }
+      destruct Step as (R1 & O1 & C1 & M1 & Dl).
+      destruct (IH (istep st l) c R1 O1 C1 M1) as (E1 & E2 & E3 & E4).
+      destruct (drive_c f (istep st l) c giveup) as [st' tr]. cbn [fst snd] in *.
+      split; [rewrite irun_cons; exact E1|]. split; [constructor; [exact Dl | exact E2] | auto].
 Qed.
 
 Definition rneed (s : rstate) (x : conn) : nat :=
@@ -383,7 +451,11 @@ Qed.
 (** * The canonical schedule *)
 
 Definition script_ok (N : nat) (script : list sitem) : Prop :=
-  Forall (fun it => match it with SOp c o => (c < N)%nat /\ wf_op o | _ => True end) script.
+  Forall (fun it => match it with SOp c o | SCut c o _ => (c < N)%nat /\ wf_op o | _ => True end) script.
+
+(** no disconnect while an operation is in flight *)
+Definition no_cut (script : list sitem) : Prop :=
+  Forall (fun it => match it with SCut _ _ _ => False | _ => True end) script.
 
 Lemma solo_sched_app tr1 : forall s tr2,
   solo_sched s tr1 -> solo_sched (run s tr1) tr2 -> solo_sched s (tr1 ++ tr2).
@@ -397,7 +469,7 @@ Definition not_op (l : label) : Prop := match l with LOp _ _ => False | _ => Tru
 Lemma solo_sched_noop tr : forall s, Forall not_op tr -> solo_sched s tr.
 Proof.
   induction tr as [|l tr IH]; intros s F; [exact Logic.I|]. inversion F as [|? ? Hl F']; subst. cbn.
-  split; [destruct l; [contradiction | | | |]; exact Logic.I | now apply IH].
+  split; [destruct l; [contradiction | | | | |]; exact Logic.I | now apply IH].
 Qed.
 
 Lemma wreg_ext reg1 reg2 rem : (forall x, In x rem -> msize reg1 x = msize reg2 x) -> wreg reg1 rem = wreg reg2 rem.
@@ -419,79 +491,155 @@ Proof.
   apply Nat.eqb_eq in Ex. subst. contradiction.
 Qed.
 
-Lemma mu_after_op buf s c o :
-  reachable buf s -> all_idle s -> (mu (step s (LOp c o)) c <= drive_fuel (step s (LOp c o)))%nat.
+Lemma wpc_program_le buf s c o :
+  reachable buf s -> (wpc (r_reg s) (program s c o) + 2 <= drive_fuel s)%nat.
 Proof.
-  intros R Idle. pose proof (Inv_reachable buf s R) as I.
-  unfold step. cbn [enabled step_enabled]. rewrite (Idle c).
-  destruct (c_dead (r_cs s c)).
-  - unfold mu. rewrite (Idle c). cbn. lia.
-  - unfold mu, drive_fuel. cbn [r_cs r_reg with_cs]. rewrite upd_same. cbn [c_pc].
-    destruct o; cbn [program]; try (destruct (reg_get c (r_reg s))); cbn [wpc fold_right wi]; try lia.
-    all: rewrite (wreg_keys _ (inv_reg_nodup s I)); lia.
+  intro R. pose proof (Inv_reachable buf s R) as I. unfold drive_fuel.
+  destruct o; cbn [program]; try (destruct (reg_get c (r_reg s))); cbn [wpc fold_right wi]; try lia.
+  all: rewrite (wreg_keys _ (inv_reg_nodup s I)); lia.
+Qed.
+
+(** after the client's message (and possibly its disconnect) only [c] is busy,
+    and the fuel suffices *)
+Lemma after_op buf s c o :
+  reachable buf s -> all_idle s -> r_cancel s = [] ->
+  let s1 := step s (LOp c o) in
+  others_idle s1 c /\ r_cancel s1 = [] /\ (mu2 s1 c <= drive_fuel s1)%nat /\
+  (c_pc (r_cs s1 c) = [] \/ (c_pc (r_cs s1 c) = program s c o /\ r_reg s1 = r_reg s)) /\ r_reg s1 = r_reg s.
+Proof.
+  intros R Idle Hcan s1. unfold others_idle, s1, step. cbn [enabled step_enabled]. rewrite (Idle c), Hcan. cbn [mem_conn existsb orb].
+  rewrite orb_false_r.
+  destruct (c_dead (r_cs s c)) eqn:Hd.
+  - split; [intros y _; apply Idle|]. split; [assumption|]. split; [|auto].
+    unfold mu2, mu. rewrite (Idle c), Hcan. cbn. unfold drive_fuel. lia.
+  - cbn [r_cs r_reg r_cancel with_cs]. split; [intros y N; rewrite upd_other by auto; apply Idle|]. split; [assumption|].
+    split; [|rewrite upd_same; cbn; auto].
+    unfold mu2, mu, drive_fuel. cbn [r_cs r_reg r_cancel with_cs]. rewrite upd_same, Hcan. cbn [c_pc mem_conn existsb].
+    pose proof (wpc_program_le buf s c o R). unfold drive_fuel in H. lia.
+Qed.
+
+Lemma after_cut buf s c o :
+  reachable buf s -> all_idle s -> r_cancel s = [] ->
+  let s2 := step (step s (LOp c o)) (LOp c ODisc) in
+  others_idle s2 c /\ (forall y, In y (r_cancel s2) -> y = c) /\ (mu2 s2 c <= drive_fuel s2)%nat.
+Proof.
+  intros R Idle Hcan s2. destruct (after_op buf s c o R Idle Hcan) as (O1 & C1 & M1 & P1 & Rg1).
+  set (s1 := step s (LOp c o)) in *. unfold others_idle in *.
+  unfold s2, step. cbn [enabled step_enabled]. rewrite C1. cbn [mem_conn existsb orb negb andb]. rewrite orb_false_r, andb_true_r.
+  destruct (c_pc (r_cs s1 c)) as [|i rest] eqn:Hpc.
+  - (* idle: the disconnect of an idle connection *)
+    destruct (c_dead (r_cs s1 c)) eqn:Hd.
+    + cbn [r_cs r_reg r_cancel with_cs]. split; [exact O1|]. split; [intros y Hy; rewrite C1 in Hy; contradiction|]. exact M1.
+    + cbn [r_cs r_reg r_cancel with_cs]. split; [intros y N; rewrite upd_other by auto; now apply O1|].
+      split; [intros y Hy; rewrite C1 in Hy; contradiction|].
+      unfold mu2, mu, drive_fuel. cbn [r_cs r_reg r_cancel with_cs]. rewrite upd_same, C1. cbn. lia.
+  - destruct (c_dead (r_cs s1 c)) eqn:Hd; cbn [negb andb is_disc].
+    + cbn [r_cs r_reg r_cancel with_cs]. split; [exact O1|]. split; [intros y Hy; rewrite C1 in Hy; contradiction|]. exact M1.
+    + cbn [r_cs r_reg r_cancel]. split; [exact O1|]. split; [intros y [<-|[]]; reflexivity|].
+      unfold mu2 in *. unfold mu, drive_fuel in *. cbn [r_cs r_reg r_cancel]. rewrite C1 in M1. cbn [mem_conn existsb] in M1 |- *.
+      rewrite Nat.eqb_refl. cbn [orb].
+      destruct P1 as [P1|[P1 _]]; [congruence|]. rewrite Hpc in P1.
+      pose proof (wpc_program_le buf s c o R) as W. unfold drive_fuel in W. rewrite Rg1, Hpc, P1. lia.
 Qed.
 
 Lemma det_run_spec buf N : forall script st paused,
-  reachable buf (i_s st) -> all_idle (i_s st) -> script_ok N script ->
+  reachable buf (i_s st) -> all_idle (i_s st) -> r_cancel (i_s st) = [] -> script_ok N script ->
   fst (det_run N st script paused) = irun st (snd (det_run N st script paused)) /\
   conns_below N (snd (det_run N st script paused)) /\
   Forall wf_label (snd (det_run N st script paused)) /\
-  solo_sched (i_s st) (snd (det_run N st script paused)) /\
+  (no_cut script -> solo_sched (i_s st) (snd (det_run N st script paused))) /\
   all_idle (i_s (fst (det_run N st script paused))) /\
+  r_cancel (i_s (fst (det_run N st script paused))) = [] /\
   (forall x, (x < N)%nat -> drained (i_s (fst (det_run N st script paused))) x).
 Proof.
   assert (Readers : forall tr, Forall (fun l => exists x, In x (seq 0 N) /\ reader_of x l) tr ->
             conns_below N tr /\ Forall wf_label tr /\ Forall not_op tr).
   { intros tr F. unfold conns_below. repeat split; eapply Forall_impl; try exact F;
       intros l (x & Hx & [->| ->]); cbn; try exact Logic.I; apply in_seq in Hx; lia. }
-  induction script as [|it script IH]; intros st paused R Idle Hok.
+  assert (ReadCancel : forall x tr s, Forall (reader_of x) tr -> r_cancel (run s tr) = r_cancel s).
+  { intros x tr. induction tr as [|l tr IH]; intros s F; [reflexivity|]. inversion F as [|? ? Hl F']; subst.
+    rewrite run_cons, (IH _ F'). destruct Hl as [->| ->]; unfold step; cbn [enabled step_enabled].
+    - destruct (c_dead (r_cs s x)); [reflexivity|]. destruct (c_hand (r_cs s x)); [reflexivity|]. destruct (c_q (r_cs s x)); reflexivity.
+    - destruct (c_dead (r_cs s x)); [reflexivity|]. destruct (c_hand (r_cs s x)); reflexivity. }
+  assert (ReadersCancel : forall tr s, Forall (fun l => exists x, In x (seq 0 N) /\ reader_of x l) tr -> r_cancel (run s tr) = r_cancel s).
+  { intros tr. induction tr as [|l tr IH]; intros s F; [reflexivity|]. inversion F as [|? ? (x & _ & Hl) F']; subst.
+    rewrite run_cons, (IH _ F'). apply (ReadCancel x [l] s). now constructor. }
+  assert (Drives : forall c tr, Forall (drive_label c) tr -> (c < N)%nat ->
+            conns_below N tr /\ Forall wf_label tr /\ Forall not_op tr).
+  { intros c tr F Hc. unfold conns_below. repeat split; eapply Forall_impl; try exact F; intros l [->| ->]; cbn; auto. }
+  induction script as [|it script IH]; intros st paused R Idle Hcan Hok.
   - cbn [det_run]. destruct (drain_all_spec (seq 0 N) st []) as (E1 & E2 & E3 & _ & E5).
     destruct (Readers _ E2) as (A1 & A2 & A3).
-    split; [assumption|]. split; [assumption|]. split; [assumption|]. split; [now apply solo_sched_noop|].
-    split; [intro y; rewrite E3; apply Idle|]. intros x Hx. apply E5; [apply in_seq; lia | reflexivity].
-  - inversion Hok as [|? ? Hit Hok']; subst. destruct it as [c o|c|c]; cbn [det_run].
+    split; [assumption|]. split; [assumption|]. split; [assumption|]. split; [intros _; now apply solo_sched_noop|].
+    split; [intro y; rewrite E3; apply Idle|].
+    split; [rewrite E1, irun_s, (ReadersCancel _ _ E2); exact Hcan|].
+    intros x Hx. apply E5; [apply in_seq; lia | reflexivity].
+  - inversion Hok as [|? ? Hit Hok']; subst. destruct it as [c o|c|c|c o giveup]; cbn [det_run].
     + (* an operation *)
       destruct Hit as [HcN Hwo].
+      destruct (after_op buf _ c o R Idle Hcan) as (O0 & C0 & M0 & _).
       set (st0 := istep st (LOp c o)).
       assert (R0 : reachable buf (i_s st0)) by (unfold st0; rewrite istep_s; now constructor).
-      assert (O0 : others_idle (i_s st0) c).
-      { intros y Ny. unfold st0. rewrite istep_s, step_pc_other; [apply Idle | cbn; now apply Nat.eqb_neq]. }
-      assert (M0 : (mu (i_s st0) c <= drive_fuel (i_s st0))%nat) by (unfold st0; rewrite istep_s; eapply mu_after_op; eassumption).
-      destruct (drive_c_spec buf _ st0 c R0 O0 M0) as (D1 & D2 & D3).
-      destruct (drive_c (drive_fuel (i_s st0)) st0 c) as [st1 tr1]. cbn [fst snd] in *.
+      assert (Hcc : forall y, In y (r_cancel (i_s st0)) -> y = c) by (unfold st0; rewrite istep_s, C0; intros y []).
+      destruct (drive_c_spec buf false _ st0 c R0 O0 Hcc M0) as (D1 & D2 & D3 & D4).
+      destruct (drive_c (drive_fuel (i_s st0)) st0 c false) as [st1 tr1]. cbn [fst snd] in *.
       destruct (drain_all_spec (seq 0 N) st1 paused) as (E1 & E2 & E3 & _ & _).
-      destruct (Readers _ E2) as (A1 & A2 & A3).
+      destruct (Readers _ E2) as (A1 & A2 & A3). destruct (Drives c _ D2 HcN) as (B1 & B2 & B3).
+      pose proof (ReadersCancel _ (i_s st1) E2) as RC.
       destruct (drain_all st1 (seq 0 N) paused) as [st2 tr2]. cbn [fst snd] in *.
       assert (R2 : reachable buf (i_s st2)).
       { rewrite E1, irun_s, D1, irun_s. now apply reachable_run, reachable_run. }
       assert (I2 : all_idle (i_s st2)) by (intro y; rewrite E3; apply D3).
-      destruct (IH st2 paused R2 I2 Hok') as (F1 & F2 & F3 & F4 & F5 & F6).
+      assert (C2 : r_cancel (i_s st2) = []) by (rewrite E1, irun_s, RC; exact D4).
+      destruct (IH st2 paused R2 I2 C2 Hok') as (F1 & F2 & F3 & F4 & F5 & F6 & F7).
       destruct (det_run N st2 script paused) as [st3 tr3]. cbn [fst snd] in *.
-      assert (Run1 : Forall not_op tr1) by (eapply Forall_impl; [|exact D2]; intros l ->; exact Logic.I).
-      split; [|split; [|split; [|split; [|split]]]]; try assumption.
+      split; [|split; [|split; [|split; [|split; [|split]]]]]; try assumption.
       * rewrite irun_cons. fold st0. rewrite !irun_app, <- D1, <- E1. exact F1.
-      * constructor; [exact HcN|]. apply Forall_app. split; [eapply Forall_impl; [|exact D2]; intros l ->; exact HcN|].
-        apply Forall_app. split; assumption.
-      * constructor; [exact Hwo|]. apply Forall_app. split; [eapply Forall_impl; [|exact D2]; intros l ->; exact Logic.I|].
-        apply Forall_app. split; assumption.
-      * cbn [solo_sched]. split; [intros _; exact Idle|].
+      * constructor; [exact HcN|]. apply Forall_app. split; [exact B1|]. apply Forall_app. split; assumption.
+      * constructor; [exact Hwo|]. apply Forall_app. split; [exact B2|]. apply Forall_app. split; assumption.
+      * intro Hnc. inversion Hnc as [|? ? _ Hnc']; subst. cbn [solo_sched]. split; [intros _; exact Idle|].
         change (step (i_s st) (LOp c o)) with (i_s st0).
         apply solo_sched_app; [now apply solo_sched_noop|]. apply solo_sched_app; [now apply solo_sched_noop|].
-        rewrite <- irun_s, <- D1, <- irun_s, <- E1. exact F4.
-    + (* pause *) apply IH; assumption.
+        rewrite <- irun_s, <- D1, <- irun_s, <- E1. now apply F4.
+    + (* pause *) apply IH; assumption || (intro Hnc; inversion Hnc; subst; auto).
+      all: try assumption.
     + (* resume *)
       destruct (drain_all_spec (seq 0 N) st (remove_conn c paused)) as (E1 & E2 & E3 & _ & _).
-      destruct (Readers _ E2) as (A1 & A2 & A3).
+      destruct (Readers _ E2) as (A1 & A2 & A3). pose proof (ReadersCancel _ (i_s st) E2) as RC.
       destruct (drain_all st (seq 0 N) (remove_conn c paused)) as [st1 tr1]. cbn [fst snd] in *.
       assert (R1 : reachable buf (i_s st1)) by (rewrite E1, irun_s; now apply reachable_run).
       assert (I1 : all_idle (i_s st1)) by (intro y; rewrite E3; apply Idle).
-      destruct (IH st1 (remove_conn c paused) R1 I1 Hok') as (F1 & F2 & F3 & F4 & F5 & F6).
+      assert (C1 : r_cancel (i_s st1) = []) by (rewrite E1, irun_s, RC; exact Hcan).
+      destruct (IH st1 (remove_conn c paused) R1 I1 C1 Hok') as (F1 & F2 & F3 & F4 & F5 & F6 & F7).
       destruct (det_run N st1 script (remove_conn c paused)) as [st2 tr2]. cbn [fst snd] in *.
-      split; [|split; [|split; [|split; [|split]]]]; try assumption.
+      split; [|split; [|split; [|split; [|split; [|split]]]]]; try assumption.
       * rewrite irun_app, <- E1. exact F1.
       * apply Forall_app. split; assumption.
       * apply Forall_app. split; assumption.
-      * apply solo_sched_app; [now apply solo_sched_noop|]. rewrite <- irun_s, <- E1. exact F4.
+      * intro Hnc. inversion Hnc as [|? ? _ Hnc']; subst.
+        apply solo_sched_app; [now apply solo_sched_noop|]. rewrite <- irun_s, <- E1. now apply F4.
+    + (* an operation cut short by a disconnect *)
+      destruct Hit as [HcN Hwo].
+      destruct (after_cut buf _ c o R Idle Hcan) as (O0 & Hcc & M0).
+      set (st0 := istep (istep st (LOp c o)) (LOp c ODisc)).
+      assert (R0 : reachable buf (i_s st0)) by (unfold st0; rewrite !istep_s; constructor; now constructor).
+      destruct (drive_c_spec buf giveup _ st0 c R0 O0 Hcc M0) as (D1 & D2 & D3 & D4).
+      destruct (drive_c (drive_fuel (i_s st0)) st0 c giveup) as [st1 tr1]. cbn [fst snd] in *.
+      destruct (drain_all_spec (seq 0 N) st1 paused) as (E1 & E2 & E3 & _ & _).
+      destruct (Readers _ E2) as (A1 & A2 & A3). destruct (Drives c _ D2 HcN) as (B1 & B2 & B3).
+      pose proof (ReadersCancel _ (i_s st1) E2) as RC.
+      destruct (drain_all st1 (seq 0 N) paused) as [st2 tr2]. cbn [fst snd] in *.
+      assert (R2 : reachable buf (i_s st2)).
+      { rewrite E1, irun_s, D1, irun_s. now apply reachable_run, reachable_run. }
+      assert (I2 : all_idle (i_s st2)) by (intro y; rewrite E3; apply D3).
+      assert (C2 : r_cancel (i_s st2) = []) by (rewrite E1, irun_s, RC; exact D4).
+      destruct (IH st2 paused R2 I2 C2 Hok') as (F1 & F2 & F3 & F4 & F5 & F6 & F7).
+      destruct (det_run N st2 script paused) as [st3 tr3]. cbn [fst snd] in *.
+      split; [|split; [|split; [|split; [|split; [|split]]]]]; try assumption.
+      * rewrite !irun_cons. fold st0. rewrite !irun_app, <- D1, <- E1. exact F1.
+      * constructor; [exact HcN|]. constructor; [exact HcN|]. apply Forall_app. split; [exact B1|]. apply Forall_app. split; assumption.
+      * constructor; [exact Hwo|]. constructor; [exact Logic.I|]. apply Forall_app. split; [exact B2|]. apply Forall_app. split; assumption.
+      * intro Hnc. inversion Hnc as [|? ? X _]; subst. contradiction.
 Qed.
 
 (** a connection that never issued an operation has nothing queued *)
@@ -502,8 +650,9 @@ Proof.
   intros A Hno. pose proof (a_h _ _ A) as HI. pose proof (a_reach _ _ A) as R.
   pose proof (DInv_reachable buf _ R) as D. destruct (QInv_reachable buf _ R x) as [Qq Qh].
   assert (Eops : c_ops (r_cs (i_s st) x) = []).
-  { rewrite <- (h_ops st HI x). destruct (xops x (i_hops st)) as [|h l] eqn:E; [reflexivity|]. exfalso.
-    assert (Hin : In h (xops x (i_hops st))) by (rewrite E; now left). apply xops_In in Hin as [Hin Hc]. now apply (Hno h). }
+  { pose proof (h_ops st HI x) as E. destruct (xops x (i_hops st)) as [|h l] eqn:Ex.
+    - cbn in E. symmetry in E. now apply app_eq_nil in E.
+    - exfalso. assert (Hin : In h (xops x (i_hops st))) by (rewrite Ex; now left). apply xops_In in Hin as [Hin Hc]. now apply (Hno h). }
   assert (NoEv : forall m, is_event_msg m = true -> In m (flow (r_cs (i_s st) x)) -> False).
   { intros m He Hin. destruct m as [| | |sub e t]; try discriminate.
     destruct (d_just _ D x sub e t) as [(fs & Ho & _) _]; [apply filter_In; auto|]. rewrite Eops in Ho. contradiction. }
@@ -518,27 +667,39 @@ Theorem det_schedule_ok buf N script :
   script_ok N script ->
   det_history buf N script = model_history buf N (det_schedule buf N script) /\
   conns_below N (det_schedule buf N script) /\ Forall wf_label (det_schedule buf N script) /\
-  solo_sched (r_init buf) (det_schedule buf N script) /\
+  (no_cut script -> solo_sched (r_init buf) (det_schedule buf N script)) /\
   quiescent (run (r_init buf) (det_schedule buf N script)).
 Proof.
   intro Hok. unfold det_history, det_schedule, model_history.
-  destruct (det_run_spec buf N script (i_init buf) [] (reach_init buf) (fun x => eq_refl) Hok) as (E1 & E2 & E3 & E4 & E5 & E6).
+  destruct (det_run_spec buf N script (i_init buf) [] (reach_init buf) (fun x => eq_refl) eq_refl Hok)
+    as (E1 & E2 & E3 & E4 & E5 & E6 & E7).
   rewrite <- E1. change (r_init buf) with (i_s (i_init buf)). rewrite <- irun_s, <- E1.
   split; [reflexivity|]. split; [assumption|]. split; [assumption|]. split; [assumption|].
-  intro x. split; [apply E5|]. intro Hd.
-    destruct (Nat.lt_ge_cases x N) as [L|G]; [now apply E6|].
-    assert (A : AllInv buf (fst (det_run N (i_init buf) script []))) by (rewrite E1; apply AllInv_irun, AllInv_init).
-    apply (silent_conn_empty buf _ x A). intros h Hin Hc.
-    rewrite E1 in Hin. destruct (hops_conns_wf buf N _ h E2 E3 Hin) as [Hlt _]. lia.
+  split; [exact E6|]. intro x. split; [apply E5|]. intro Hd.
+  destruct (Nat.lt_ge_cases x N) as [L|G]; [now apply E7|].
+  assert (A : AllInv buf (fst (det_run N (i_init buf) script []))) by (rewrite E1; apply AllInv_irun, AllInv_init).
+  apply (silent_conn_empty buf _ x A). intros h Hin Hc.
+  rewrite E1 in Hin. destruct (hops_conns_wf buf N _ h E2 E3 Hin) as [Hlt _]. lia.
 Qed.
 
-(** DETERMINISTIC LAYER: for every script, run on the canonical schedule, the
-    deterministic oracle accepts the model's history. *)
-Theorem model_satisfies_det_oracle_script buf N script :
+(** every script, cuts included: the timed oracle accepts the model's history *)
+Theorem model_satisfies_timed_oracle_script buf N script :
   script_ok N script ->
+  uniq_pub_ids (det_history buf N script) ->
+  timed_oracle (det_history buf N script) = true.
+Proof.
+  intros Hok U. destruct (det_schedule_ok buf N script Hok) as (E & A1 & A2 & _ & A4).
+  rewrite E in *. apply model_satisfies_timed_oracle; try assumption. now rewrite irun_s.
+Qed.
+
+(** DETERMINISTIC LAYER: for every script without a disconnect in flight, run
+    on the canonical schedule, the deterministic oracle accepts the model's
+    history. *)
+Theorem model_satisfies_det_oracle_script buf N script :
+  script_ok N script -> no_cut script ->
   uniq_pub_ids (det_history buf N script) ->
   det_oracle (det_history buf N script) = true.
 Proof.
-  intros Hok U. destruct (det_schedule_ok buf N script Hok) as (E & A1 & A2 & A3 & A4).
-  rewrite E in *. apply model_satisfies_det_oracle; try assumption. now rewrite irun_s.
+  intros Hok Hnc U. destruct (det_schedule_ok buf N script Hok) as (E & A1 & A2 & A3 & A4).
+  rewrite E in *. apply model_satisfies_det_oracle; try assumption; [now apply A3 | now rewrite irun_s].
 Qed.
